@@ -53,8 +53,26 @@ type stCmd struct {
 	X   bool `json:"x,omitempty"`
 	// addid: 1 = the boundary id 0, 2 = math.MaxUint32
 	Sp int `json:"sp,omitempty"`
+	// osearch: a probe with search options, answered by the store AND by the reference
+	// in-memory hybrid index
+	O *stOpt `json:"o,omitempty"`
 	// bg: which worker takes one step: "f" | "c"
 	W string `json:"w,omitempty"`
+}
+
+// stOpt: the options of an `osearch` probe.
+type stOpt struct {
+	Mode string `json:"mode"`          // vec | vt (vector + text)
+	Thr  int    `json:"thr,omitempty"` // 0 none; 1 = exactly the distance of the reference's hit R; 2 = midpoint of hits R, R+1
+	R    int    `json:"r,omitempty"`
+	Agg  string `json:"agg,omitempty"` // sum | max | mean
+	Cut  int    `json:"cut,omitempty"` // autocut parameter (> 0)
+	Np   int    `json:"np,omitempty"`  // ivf: 1 = all lists, 2 = one list
+	Ef   int    `json:"ef,omitempty"`  // hnsw: efSearch
+	Fus  string `json:"fus,omitempty"` // fusion kind for vt
+	Via  bool   `json:"via,omitempty"` // true: WithFusion(NewFusion(kind, nil)); false: WithFusionKind(kind)
+	KX   bool   `json:"kx,omitempty"`  // k = exactly the size of the reference's answer
+	Tok  bool   `json:"tok,omitempty"` // vt: query a document-specific token too
 }
 
 type stCase struct {
@@ -315,6 +333,9 @@ type stExec struct {
 	adds    []uint32 // ids acknowledged, by ordinal of the add command
 	addOK   []bool
 	lastN   map[string]int // size of the last answer per modality
+	ref     comet.HybridSearchIndex // reference: one in-memory hybrid index fed the same acknowledged adds / removes
+	lastTok string
+	noRef   bool
 	nAdd    int
 	nlist   int
 	fullLen map[string]int // crash: plaintext length of the complete version of a file
@@ -350,7 +371,17 @@ func docMeta(n int) map[string]interface{} {
 	return m
 }
 
-func (e *stExec) templates() (comet.VectorIndex, comet.TextIndex, comet.MetadataIndex, error) {
+func (e *stExec) trainingSet() [][]float32 {
+	var out [][]float32
+	for i := 0; i < 24; i++ {
+		out = append(out, e.docVector(i*5+1))
+	}
+	return out
+}
+
+// templates builds fresh index instances of the case's kinds. An IVF template is returned
+// UNTRAINED when viaStore is set: the store's own Train is called after Open.
+func (e *stExec) templates(viaStore bool) (comet.VectorIndex, comet.TextIndex, comet.MetadataIndex, error) {
 	var v comet.VectorIndex
 	var t comet.TextIndex
 	var m comet.MetadataIndex
@@ -378,13 +409,15 @@ func (e *stExec) templates() (comet.VectorIndex, comet.TextIndex, comet.Metadata
 		if err != nil {
 			return nil, nil, nil, err
 		}
-		// the same training set for every session
-		var train []comet.VectorNode
-		for i := 0; i < 24; i++ {
-			train = append(train, *comet.NewVectorNodeWithID(uint32(i), e.docVector(i*5+1)))
-		}
-		if err := x.Train(train); err != nil {
-			return nil, nil, nil, err
+		// the same training set for every session (and for the reference index)
+		if !viaStore {
+			var train []comet.VectorNode
+			for i, tv := range e.trainingSet() {
+				train = append(train, *comet.NewVectorNodeWithID(uint32(i), tv))
+			}
+			if err := x.Train(train); err != nil {
+				return nil, nil, nil, err
+			}
 		}
 		v = x
 	}
@@ -422,10 +455,18 @@ func storeErr(err error) string {
 }
 
 func (e *stExec) open() {
-	v, t, m, err := e.templates()
+	v, t, m, err := e.templates(true)
 	if err != nil {
 		e.emit("op panic templates: %v", err)
 		return
+	}
+	if e.ref == nil && !e.noRef {
+		rv, rt, rm, err := e.templates(false)
+		if err != nil {
+			e.emit("op panic reference templates: %v", err)
+			return
+		}
+		e.ref = comet.NewHybridSearchIndex(rv, rt, rm)
 	}
 	cfg := comet.DefaultStorageConfig(e.dir)
 	cfg.MemtableSizeLimit = e.c.Limit
@@ -444,6 +485,16 @@ func (e *stExec) open() {
 		e.emit("op open => ok")
 		st.Close()
 		return
+	}
+	// IVF: trained through the store's own Train (same training set as the reference), before
+	// anything is added or searched; the accessors must hand back the configured templates
+	if e.c.Vec == "ivf" {
+		if err := st.Train(e.trainingSet()); err != nil {
+			e.emit("op panic store.Train: %v", err)
+		}
+	}
+	if (v != nil && st.VectorIndex() != v) || (t != nil && st.TextIndex() != t) || (m != nil && st.MetadataIndex() != m) {
+		e.emit("op panic store accessors do not return the configured templates")
 	}
 	e.store = st
 	e.h.mu.Lock()
@@ -830,10 +881,135 @@ func (e *stExec) add(cmd stCmd, explicit bool) {
 	}
 	e.adds = append(e.adds, id)
 	e.addOK = append(e.addOK, true)
+	if e.ref != nil {
+		var rvec []float32
+		if cmd.V {
+			rvec = e.docVector(n)
+		}
+		if rerr := e.ref.AddWithID(id, rvec, text, meta); rerr != nil {
+			e.emit("op panic reference add: %v", rerr)
+		}
+	}
+	if cmd.T {
+		e.lastTok = fmt.Sprintf("tok%d", n)
+	}
 	e.emit("op add %d %d %d %d => ok", id, vd, tl, mc)
 	if e.store.VerifTotalMemtableSize() >= e.c.FlushThr {
 		e.signalled(&e.h.fw, fwIdle, "fwake")
 	}
+}
+
+// applyOpts configures one search builder (the store's or the reference's) identically.
+func (e *stExec) applyOpts(s comet.HybridSearch, o *stOpt, k int, thr float32) (comet.HybridSearch, string) {
+	desc := ""
+	s = s.WithK(k).WithVector(e.docVector(2))
+	if o.Mode == "vt" {
+		if o.Tok && e.lastTok != "" {
+			// only the latest text document matches the text side: the answer then depends on
+			// what the vector side (threshold, nprobes …) lets through
+			s = s.WithText(e.lastTok)
+		} else {
+			s = s.WithText("w")
+		}
+	}
+	if thr > 0 {
+		s = s.WithThreshold(thr)
+		desc += " thr=1"
+	}
+	if o.Agg != "" {
+		s = s.WithScoreAggregation(comet.ScoreAggregationKind(o.Agg))
+		desc += " agg=" + o.Agg
+	}
+	if o.Cut > 0 {
+		s = s.WithCutoff(o.Cut)
+		desc += fmt.Sprintf(" cut=%d", o.Cut)
+	}
+	if e.c.Vec == "ivf" {
+		np := e.nlist
+		if o.Np == 2 {
+			np = 1
+		}
+		s = s.WithNProbes(np)
+		desc += fmt.Sprintf(" np=%d", np)
+	}
+	if e.c.Vec == "hnsw" && o.Ef > 0 {
+		s = s.WithEfSearch(o.Ef)
+		desc += fmt.Sprintf(" ef=%d", o.Ef)
+	}
+	if o.Mode == "vt" && o.Fus != "" {
+		if o.Via {
+			if f, err := comet.NewFusion(comet.FusionKind(o.Fus), nil); err == nil {
+				s = s.WithFusion(f)
+			}
+			desc += " fusion=" + o.Fus
+		} else {
+			s = s.WithFusionKind(comet.FusionKind(o.Fus))
+			desc += " fusionkind=" + o.Fus
+		}
+	}
+	return s, desc
+}
+
+// osearch: a probe with search options, put to the reference in-memory index (which also
+// supplies the threshold and the "exactly large enough" k) and to the store.
+func (e *stExec) osearch(o *stOpt) {
+	if e.ref == nil || e.c.Vec == "none" || e.c.Vec == "" || (o.Mode == "vt" && !e.c.Text) {
+		return
+	}
+	// threshold from the distances the reference reports for the plain vector query
+	var thr float32
+	if o.Thr > 0 {
+		q := e.ref.NewSearch().WithVector(e.docVector(2)).WithK(100000)
+		if e.c.Vec == "ivf" {
+			q = q.WithNProbes(e.nlist)
+		}
+		if hits, err := q.Execute(); err == nil && len(hits) > 0 {
+			sc := make([]float64, len(hits))
+			for i, h := range hits {
+				sc[i] = h.Score
+			}
+			sort.Float64s(sc)
+			i := o.R % len(sc)
+			thr = float32(sc[i])
+			if o.Thr == 2 && i+1 < len(sc) {
+				thr = float32((sc[i] + sc[i+1]) / 2)
+			}
+		}
+	}
+	k := 100000
+	if o.KX {
+		rs, _ := e.applyOpts(e.ref.NewSearch(), o, 100000, thr)
+		if hits, err := rs.Execute(); err == nil && len(hits) > 0 {
+			k = len(hits)
+		}
+	}
+	rs, desc := e.applyOpts(e.ref.NewSearch(), o, k, thr)
+	refRes, refErr := rs.Execute()
+	e.h.mu.Lock()
+	e.h.turns, e.h.loads = nil, 0
+	e.h.mu.Unlock()
+	ss, _ := e.applyOpts(e.store.NewSearch(), o, k, thr)
+	res, err := ss.Execute()
+	e.h.mu.Lock()
+	turns := strings.Join(e.h.turns, ",")
+	loads := e.h.loads
+	e.h.mu.Unlock()
+	if turns == "" {
+		turns = "-"
+	}
+	// is the vector side exact? flat always; ivf when every list is probed
+	exact := e.c.Vec == "flat" || (e.c.Vec == "ivf" && o.Np != 2)
+	commute := o.Mode == "vec" && o.Cut == 0
+	head := fmt.Sprintf("op osearch %s k=%d turns=%s loads=%d exactix=%d commute=%d%s", o.Mode, k, turns, loads, stB01(exact), stB01(commute), desc)
+	refS := "err"
+	if refErr == nil {
+		refS = stIdsLine(refRes)
+	}
+	if err != nil {
+		e.emit("%s => err %s ref %s", head, storeErr(err), refS)
+		return
+	}
+	e.emit("%s => ok %s ref %s", head, stIdsLine(res), refS)
 }
 
 // badAdd issues an Add / AddWithID that the store must reject — and that must leave nothing
@@ -936,6 +1112,9 @@ func (e *stExec) do(cmd stCmd) {
 			id = e.adds[cmd.Ref]
 		}
 		err := e.store.Remove(id)
+		if err == nil && e.ref != nil {
+			e.ref.Remove(id)
+		}
 		e.emit("op remove %d => %s", id, storeErr(err))
 	case "flush":
 		e.flush()
@@ -954,6 +1133,10 @@ func (e *stExec) do(cmd stCmd) {
 		e.search(cmd.Q, cmd.K)
 	case "badadd":
 		e.badAdd(cmd)
+	case "osearch":
+		if cmd.O != nil {
+			e.osearch(cmd.O)
+		}
 	case "bg":
 		e.stepWorker(cmd.W == "f")
 	case "close":
